@@ -2,7 +2,11 @@ import IodineModel.Hex
 import IodineModel.Server.Loop
 /-
 Line-protocol driver of the server session model (docs/SRV_PROTOCOL.md, "model ops"):
-  cfg … | time t | rand v… | q src id type hexname | rawf src hex | tun hex | bind hex | tick | nop
+  cfg … | time t | rand v… | nop                      (state and environment)
+  qd src id type hexname | rawf src hex               (SESSION level: an already decoded query / a raw frame; no `tx`/`dq`,
+                                                       `nsa`/`fwd` without bytes)
+The loop-iteration ops of the harness (`q dns tun bind tick`) are answered at BYTE level by Drv/ServerBytes.lean,
+which shares this file's state `St`, parsers and printers.
 
 The C harness parks the real `tunnel()` thread INSIDE `select`: the top of the loop of the next
 iteration (clearing `q_sendrealsoon_new`, timeout, tun_fd selection) has already run, with the clock of
@@ -131,8 +135,7 @@ def handle (st : St) (toks : List String) : Option (St × String) :=
     let vals := (vs.map fun v => (v.toNat?).getD 0).take (4096 - st.nrand)
     some ({ st with srv := st.srv.map (fun s => { s with rand := s.rand ++ vals }), nrand := st.nrand + vals.length }, "ok")
   | ["nop"] => some (st, "nop")
-  | ["tick"] => some (runOp st fun _ => .tick)
-  | ["q", src, id, ty, hn] =>
+  | ["qd", src, id, ty, hn] =>
     match parseAddr src, id.toNat?, ty.toNat?, ofHex hn with
     | some src, some id, some ty, some name => some (runOp st fun s => .q (mkQuery s src id ty name))
     | _, _, _, _ => some (st, "bad-op")
@@ -140,14 +143,6 @@ def handle (st : St) (toks : List String) : Option (St × String) :=
     match parseAddr src, ofHex hx with
     | some src, some b => some (runOp st fun _ => .rawf src b)
     | _, _ => some (st, "bad-op")
-  | ["tun", hx] =>
-    match ofHex hx with
-    | some b => some (runOp st fun _ => .tun b)
-    | none => some (st, "bad-op")
-  | ["bind", hx] =>
-    match ofHex hx with
-    | some b => some (runOp st fun _ => .bind b)
-    | none => some (st, "bad-op")
   | _ => none
 
 end Iodine.Drv.Server
